@@ -25,3 +25,4 @@ open RV.C16
 #print axioms xml_attr_roundtrip
 #print axioms xml_chardata_witness
 #print axioms xml_chardata_raw_cr
+#print axioms xml_chardata_any_encoding
